@@ -1595,7 +1595,7 @@ request_parse(u8 *packet, int length, struct evdns_server_port *port,
 		j += rdlen;
 		if (j > length)
 			goto err;
-		if (type == TYPE_OPT) {
+		if (type == TYPE_OPT && !server_req->n_additional) {
 			/* In case of OPT pseudo-RR `class` field is treated
 			 * as a requestor's UDP payload size. */
 			server_req->max_udp_reply_size = MAX(class, DNS_MAX_UDP_SIZE);
@@ -1609,7 +1609,8 @@ request_parse(u8 *packet, int length, struct evdns_server_port *port,
 				0, /* is_name */
 				NULL /* data */
 			);
-			break;
+			/* go on: the records ARCOUNT announces after this
+			 * one have to be there, too */
 		}
 	}
 
@@ -1626,6 +1627,7 @@ request_parse(u8 *packet, int length, struct evdns_server_port *port,
 	return 0;
 err:
 	if (server_req) {
+		server_request_free_answers(server_req);
 		if (server_req->base.questions) {
 			for (i = 0; i < server_req->base.nquestions; ++i)
 				mm_free(server_req->base.questions[i]);
